@@ -1,7 +1,69 @@
 (* C09 -- property theorems only: each is closed by [exact] of a lemma proved elsewhere. *)
-From Coq Require Import List Arith ZArith.
-From Muscle Require Import Cont.HtModel Cont.HtStep Cont.HtIdeal Cont.HtLemmas.
+From Coq Require Import List Arith ZArith NArith PArith.
+From Muscle Require Import Cont.HtModel Cont.HtStep Cont.HtIdeal Cont.HtLemmas Cont.HtRepr Cont.HtWalk
+                           Cont.HtTable Cont.HtInv Cont.HtSafe Cont.HtSafeAll.
+Import ListNotations.
 
-Theorem C09_upd_nth_length : forall A (l : list A) i x, length (upd_nth l i x) = length l.
-Proof. exact upd_nth_length. Qed.
-Print Assumptions C09_upd_nth_length.
+(* InsertIterationEntry is list insertion: if the links of h form the list l1 ++ l2 and e is an
+   unlinked entry, then after InsertIterationEntry(e, last l1) they form l1 ++ e :: l2 *)
+Theorem C09_insert_iteration_entry : forall h l1 l2 e,
+  linked h (l1 ++ l2) -> ~ In e (l1 ++ l2) -> live h e ->
+  let h' := insert_iter_entry h e (last_of l1) in
+  linked h' (l1 ++ e :: l2) /\ same_data h h' /\ meta_eq h h'.
+Proof. exact insert_linked. Qed.
+Print Assumptions C09_insert_iteration_entry.
+
+(* RemoveIterationEntry (link part) is list removal *)
+Theorem C09_remove_iteration_entry : forall h l1 l2 e,
+  linked h (l1 ++ e :: l2) ->
+  let h' := unlink h e in
+  linked h' (l1 ++ l2) /\ same_data h h' /\ meta_eq h h' /\ get_prev h' e = None /\ get_next h' e = None.
+Proof. exact unlink_linked. Qed.
+Print Assumptions C09_remove_iteration_entry.
+
+(* every operation of the model (57 operations: put/get/remove/move/sort/size/clear/copy/swap/
+   equality/move-to-table/construction/destruction and the iterator operations) preserves the world
+   invariant: tables well linked with unique keys, registered-iterator lists and owner fields
+   consistent, every cookie a live entry of the iterator's own table *)
+Theorem C09_step_preserves_invariant : forall var dcap w o, WF w -> WF (fst (step1 var dcap w o)).
+Proof. exact step1_WF. Qed.
+Print Assumptions C09_step_preserves_invariant.
+
+(* iterator safety for every finite sequence of operations, any number of tables and iterators, all
+   three classes: an iterator's cookie is always an entry currently linked in its own table's
+   iteration list (never a removed entry), and the iterator is on that table's registered list *)
+Theorem C09_iter_safe : forall var dcap nt ni ops,
+  let w := run1 var dcap (init_world dcap nt ni) ops in
+  forall i it c, geti (its w) i = Some it -> icookie it = Some c ->
+    inoreg it = false /\
+    exists t, iown it = Some t /\ t < length (tabs w) /\ In i (ilist (gett w t)) /\
+              In c (ids (gett w t)) /\ kv_of (gett w t) c <> None.
+Proof. exact iter_safe. Qed.
+Print Assumptions C09_iter_safe.
+
+(* what an iterator shows (HasData/GetKey/GetValue) is its private scratch copy or the pair of an
+   entry that is in its table right now *)
+Theorem C09_shown_safe : forall var dcap nt ni ops,
+  let w := run1 var dcap (init_world dcap nt ni) ops in
+  forall i kv, shown w i = Some kv ->
+    exists it, geti (its w) i = Some it /\
+      (iscr it = Some kv \/
+       (iscr it = None /\ exists t c, iown it = Some t /\ icookie it = Some c /\ In c (ids (gett w t)) /\
+                                      In kv (abs (gett w t)) /\ kv_of (gett w t) c = Some kv)).
+Proof. exact shown_safe. Qed.
+Print Assumptions C09_shown_safe.
+
+(* every reachable table: backward links mirror forward links, keys unique, count = length *)
+Theorem C09_tables_consistent : forall var dcap nt ni ops,
+  let w := run1 var dcap (init_world dcap nt ni) ops in
+  forall t, t < length (tabs w) ->
+    abs_back (gett w t) = rev (abs (gett w t)) /\ NoDup (map fst (abs (gett w t))) /\
+    cnt (gett w t) = length (abs (gett w t)).
+Proof. exact tables_consistent. Qed.
+Print Assumptions C09_tables_consistent.
+
+(* non-vacuity: a reachable world with a live registered iterator whose cookie is an entry *)
+Example C09_iter_safe_nonvacuous :
+  let w := run1 VPlain 7%N (init_world 7%N 1 1) [OPut 0 1%Z 1%Z; OPut 0 2%Z 2%Z; OIterNew 0 0 false; ORemove 0 1%Z] in
+  exists it c, geti (its w) 0 = Some it /\ icookie it = Some c /\ iscr it = Some (1%Z, 1%Z) /\ kv_of (gett w 0) c = Some (2%Z, 2%Z).
+Proof. vm_compute. eexists. eexists. repeat split. Qed.
